@@ -121,13 +121,13 @@ for cls, cmpname in (("MinValue", "le"), ("MaxValue", "ge")):
         ghost={"extra_params": ["obs"]},
     )
 
-    # variant 3: comparisons that raise (C18 "comparisons that raise"; PS8): whatever exit is taken, the recorded value stays
+    # variant 3: comparisons that raise (C18 "comparisons that raise"; PS11): whatever exit is taken, the recorded value stays
     # comparable with the value in the source -- MinMaxValue._get_changes compares the two at the end of the session
     COMPARABLE = "(self._old_value is undefined or self._new_value is undefined or not cmp_raises(self._old_value, self._new_value))"
     contract(
         MM + ".MinMaxValue._generic_cmp",
         name=f"{MM}.MinMaxValue._generic_cmp#{cls}/raising",
-        uses=["val", "PS8"],
+        uses=["val", "PS11"],
         **{k: v for k, v in common.items() if k not in ("requires", "raises", "assumes")},
         requires={"compared-value-is-not-the-sentinel": "other is not undefined", "Inv-comparable": COMPARABLE},
         ensures={"recorded-value-stays-comparable [C18]": COMPARABLE},
@@ -135,7 +135,7 @@ for cls, cmpname in (("MinValue", "le"), ("MaxValue", "ge")):
                 "CmpError": {"recorded-value-stays-comparable-when-the-comparison-raises [C18,C06]": COMPARABLE}},
         ghost={"cmp_may_raise": _ord_may_raise, "frame_props": ["C14"]},
         safety_props=["C18"],
-        assumes=["PS6", "PS8", "X14"],
+        assumes=["PS6", "PS11", "X14"],
     )
 
 # --------------------------------------------------------------------------------------------
@@ -333,7 +333,7 @@ for cls, cmpname in (("MinValue", "le"), ("MaxValue", "ge")):
         name=f"{MM}.MinMaxValue._get_changes#{cls}",
         params={"self": "@Value"},
         self_cls=f"{MM}.{cls}",
-        uses=["val", "PS8"],
+        uses=["val", "PS11"],
         callees={"MinMaxValue.cmp": "inline", f"{cls}.cmp": "inline"},
         # class invariant established by _generic_cmp (variant /raising): a recorded value is comparable with the value in the source;
         # nothing may be recorded at all when the only comparison raised
@@ -361,7 +361,7 @@ for cls, cmpname in (("MinValue", "le"), ("MaxValue", "ge")):
         },
         safety_props=["C18"],
         ghost={"frame_props": ["C14"], "cmp_may_raise": _ord_may_raise},
-        assumes=["PS7", "PS8", "X2", "X10"],
+        assumes=["PS7", "PS11", "X2", "X10"],
     )
 
 # --------------------------------------------------------------------------------------------
@@ -788,3 +788,122 @@ contract(
     ghost={"vars": {"last_changed": "=-1"}, "none_list_ty": "Node", "props": ["C18", "C05"]},
     safety_props=["C18"],
 )
+
+# --------------------------------------------------------------------------------------------
+# DictValue.__getitem__  (`snapshot({...})[key]`: one sub-snapshot per key)
+
+import ast as _ast
+
+from pyvc.core import pack as _pack
+
+
+def _cm_fns():
+    has = _z3.Function("ChildMap_has", _so(CHILDMAP), _so(_Abs("Val")), _z3.BoolSort())
+    get = _z3.Function("ChildMap_get", _so(CHILDMAP), _so(_Abs("Val")), _so(CHILD))
+    return has, get
+
+
+def _child_box(I, m_t):
+    """self._new_value: a dict key -> sub-snapshot, as an object holding an abstract map (so that old() sees the map before)"""
+    box = _Obj("dict", {"m": _SV(m_t, CHILDMAP)})
+    has, get = _cm_fns()
+
+    def contains(I2, key):
+        return _SV(has(box.fields["m"].t, _vt(I2, key)), _BOOL)
+
+    def getitem(I2, key):
+        I2.implicit("KeyError", has(box.fields["m"].t, _vt(I2, key)), "key-present", None)
+        return _SV(get(box.fields["m"].t, _vt(I2, key)), CHILD)
+
+    def setitem(I2, key, v):
+        old = box.fields["m"].t
+        new = _z3.Const(I2.ctx.fresh_name("childmap"), _so(CHILDMAP))
+        k = _z3.Const(I2.ctx.fresh_name("k"), _so(_Abs("Val")))
+        kt = _vt(I2, key)
+        I2.ctx.assume(_z3.ForAll([k], _z3.And(has(new, k) == _z3.Or(k == kt, has(old, k)), get(new, k) == _z3.If(k == kt, v.t, get(old, k))),
+                                 patterns=[has(new, k), get(new, k)]), tag="store")
+        box.fields["m"] = _SV(new, CHILDMAP)
+        return None
+
+    box.fields.update({"__contains__": contains, "__getitem__": getitem, "__setitem__": setitem})
+    return box
+
+
+def gi_stmt_hook(I, st, env):
+    """`self._new_value = {}` (first access): an empty key -> sub-snapshot map"""
+    if isinstance(st, _ast.Assign) and len(st.targets) == 1 and _ast.unparse(st.targets[0]) == "self._new_value" and isinstance(st.value, _ast.Dict) and not st.value.keys:
+        has, _ = _cm_fns()
+        empty = _z3.Const("empty_childmap", _so(CHILDMAP))
+        k = _z3.Const(I.ctx.fresh_name("k"), _so(_Abs("Val")))
+        I.ctx.define("empty-childmap", lambda: _z3.ForAll([k], _z3.Not(has(empty, k)), patterns=[has(empty, k)]))
+        I.setattr(env.lookup("self"), "_new_value", _child_box(I, empty))
+        return True
+    return False
+
+
+def p_new_child(I, args, kwargs, node):
+    """UndecidedValue(part, node, context): a fresh sub-snapshot; what it was made from is recorded"""
+    c = _SV(_z3.Const(I.ctx.fresh_name("child"), _so(CHILD)), CHILD)
+    I.ghost["n_created"] = I.ghost["n_created"] + 1
+    I.ghost["created_from"], I.ghost["created_node"], I.ghost["created_context"] = args[0], args[1], args[2]
+    return c
+
+
+def s_cm_has(I, box, key):
+    has, _ = _cm_fns()
+    return _SV(has(box.fields["m"].t, _vt(I, key)), _BOOL)
+
+
+def s_cm_get(I, box, key):
+    _, get = _cm_fns()
+    return _SV(get(box.fields["m"].t, _vt(I, key)), CHILD)
+
+
+def s_cm_same_elsewhere(I, new, old, key):
+    has, get = _cm_fns()
+    k = _z3.Const(I.ctx.fresh_name("k"), _so(_Abs("Val")))
+    return _SV(_z3.ForAll([k], _z3.Implies(k != _vt(I, key), _z3.And(has(new.fields["m"].t, k) == has(old.fields["m"].t, k), get(new.fields["m"].t, k) == get(old.fields["m"].t, k)))), _BOOL)
+
+
+_SNS.update({"cm_has": s_cm_has, "cm_get": s_cm_get, "cm_same_elsewhere": s_cm_same_elsewhere})
+
+def _gi_setup_later(I, env):
+    I.setattr(env.lookup("self"), "_new_value", _child_box(I, _z3.Const(I.ctx.fresh_name("new_value_map"), _so(CHILDMAP))))
+
+
+OLD_DEF = "self._old_value is not undefined"
+IN_OLD = "(" + OLD_DEF + " and dhas(self._old_value, index))"
+
+for variant in ("first", "later"):
+    HAD = "False" if variant == "first" else "cm_has(old(self._new_value), index)"
+    contract(
+        DV + ".DictValue.__getitem__",
+        name=f"{DV}.DictValue.__getitem__#{variant}",
+        params={"self": "@GIValue", "index": "Val"},
+        shapes={"GIValue": Shape(DV + ".DictValue", {"_old_value": "DictV", "_new_value": "=Ellipsis", "_ast_node": "Node", "_context": "@Context"})},
+        callees={"UndecidedValue": p_new_child, "inline_snapshot._snapshot.undecided_value.UndecidedValue": p_new_child},
+        # class invariant: a DictValue with a source node was made from a dict display whose entries are the entries of its value
+        requires={"denotes": "implies(self._ast_node is not None, " + OLD_DEF + " and isinstance_node(self._ast_node, 'Dict') and len(self._ast_node.values) == len(dkeys(self._old_value)))"},
+        returns=None,
+        result_name="ret",
+        uses=["val"],
+        ensures={
+            # C01 "[key]: a mapping with every requested key" / C05 "create ... adds a missing sub-snapshot key": every key that is asked
+            # for has its sub-snapshot afterwards, and that is what the subscription returns
+            "returns-the-sub-snapshot-of-the-key [C01,C05,C14]": "cm_has(self._new_value, index) and same(ret, cm_get(self._new_value, index))",
+            # C14: one sub-snapshot per key for the whole session
+            "existing-sub-snapshot-is-reused [C14,C05]": "implies(" + HAD + ", n_created == 0" + ("" if variant == "first" else " and same(ret, cm_get(old(self._new_value), index)) and cm_same_elsewhere(self._new_value, old(self._new_value), index)") + ")",
+            # C05/C11: a new sub-snapshot starts from the entry of that key in the source (value and node), or empty
+            "new-sub-snapshot-starts-from-its-own-entry [C05,C11,C01,C10]": "implies(not " + HAD + ", n_created == 1 and created_context is self._context"
+                " and implies(" + IN_OLD + ", same(created_from, dget(self._old_value, index)))"
+                " and implies(not " + IN_OLD + ", created_from is undefined)"
+                " and implies(self._ast_node is None or not " + IN_OLD + ", created_node is None))",
+            "node-of-the-entry [C11,C10,C03]": "implies(not " + HAD + " and self._ast_node is not None and " + IN_OLD + ","
+                " any(same(dkeys(self._old_value)[j], index) and same(created_node, self._ast_node.values[j]) for j in range(0, len(dkeys(self._old_value)))))",
+            "missing-counted [C07]": "state.missing_values == old(state.missing_values) + ite(not " + HAD + " and not " + OLD_DEF + ", 1, 0)",
+        },
+        ghost=dict({"vars": {"n_created": "=0", "created_from": "=None", "created_node": "=None", "created_context": "=None"}, "stmt_hook": gi_stmt_hook},
+                   **({"setup": _gi_setup_later} if variant == "later" else {})),
+        safety_props=["C18"],
+        assumes=["PS5"],
+    )
